@@ -167,6 +167,9 @@ func genC17(t *simrt.Tape, tier string) Scenario {
 	}
 	np := t.Choose(5)
 	segs := []string{"v1"}
+	if t.Bool(1, 4) {
+		segs = nil // the template may begin with a placeholder (or be a single placeholder)
+	}
 	used := []string{}
 	for i := 0; i < np; i++ {
 		k := c17Keys[t.Choose(len(c17Keys))]
@@ -180,6 +183,9 @@ func genC17(t *simrt.Tape, tier string) Scenario {
 		segs = append(segs, "tail")
 	}
 	sc.Template = strings.Join(segs, "/")
+	if sc.Template == "" {
+		sc.Template = "v1"
+	}
 	for _, k := range used {
 		if !t.Bool(1, 6) { // sometimes a placeholder stays unbound
 			sc.Params[k] = c17Vals[t.Choose(len(c17Vals))]
